@@ -25,7 +25,13 @@ func c10(p *core.Prog, r *core.Report) {
 	c10Relay(p, r)
 	c10IDs(p, r)
 	c10TimerStop(p, r)
-	c10HelperClose(p, r)
+	c10HelperClose(p, r, "C10-R1")
+	c10OneHandler(p, r)
+	// after a connection or protocol error no handler may complete a response
+	// behind the error frame: both exchange sets are stopped (shared with C05-R2)
+	r.Alias("C05-R2", "C10-R2")
+	c05Failure(p, r)
+	r.Alias("C05-R2", "")
 }
 
 // c10TimerStop: the relay forwards a finishing frame only when the item's
@@ -90,7 +96,7 @@ func c10TimerStop(p *core.Prog, r *core.Report) {
 // (the final fragment goes out). ArgWriteHelper closes the writer only after
 // the write callback succeeded; after a failed write the handler reports the
 // failure with an error frame, which must then be the only terminal frame.
-func c10HelperClose(p *core.Prog, r *core.Report) {
+func c10HelperClose(p *core.Prog, r *core.Report, rule string) {
 	f := mustFunc(p, r, "", "ArgWriteHelper", "write")
 	if f == nil || len(f.Params) < 2 {
 		return
@@ -101,6 +107,16 @@ func c10HelperClose(p *core.Prog, r *core.Report) {
 		return ok && c.Call.Value == ssa.Value(cb)
 	}
 	n := 0
+	for _, a := range f.AnonFuncs {
+		// a closure of write that closes the writer is a deferred clean-up:
+		// it runs whatever the callback returned
+		core.EachInstr(a, func(i ssa.Instruction) {
+			if c, ok := i.(ssa.CallInstruction); ok && c.Common().IsInvoke() && c.Common().Method.Name() == "Close" {
+				n++
+				r.Fail(rule, fname(f), "writer closed only after a successful write", p.Pos(i.Pos()), "the argument writer is closed in a closure of write (a deferred clean-up), whatever the write callback returned: a failed write still completes the response and the handler's error frame becomes a second terminal frame")
+			}
+		})
+	}
 	core.EachInstr(f, func(i ssa.Instruction) {
 		c, ok := i.(ssa.CallInstruction)
 		if !ok || !c.Common().IsInvoke() || c.Common().Method.Name() != "Close" {
@@ -108,10 +124,10 @@ func c10HelperClose(p *core.Prog, r *core.Report) {
 		}
 		n++
 		if _, isDefer := i.(*ssa.Defer); isDefer {
-			r.Fail("C10-R1", fname(f), "writer closed only after a successful write", p.Pos(i.Pos()), "the argument writer is closed by a defer, whatever the write callback returned: a failed write still completes the response and the handler's error frame becomes a second terminal frame")
+			r.Fail(rule, fname(f), "writer closed only after a successful write", p.Pos(i.Pos()), "the argument writer is closed by a defer, whatever the write callback returned: a failed write still completes the response and the handler's error frame becomes a second terminal frame")
 			return
 		}
-		r.Check(factsAt(i.Block()).nilCmp(isCbErr, true), "C10-R1", fname(f), "writer closed only after a successful write", p.Pos(i.Pos()),
+		r.Check(factsAt(i.Block()).nilCmp(isCbErr, true), rule, fname(f), "writer closed only after a successful write", p.Pos(i.Pos()),
 			"Close is guarded by the callback's err == nil", "the argument writer is closed although the write callback failed: the response is completed and the handler's error frame becomes a second terminal frame")
 	})
 	if n == 0 {
@@ -483,9 +499,10 @@ func c10IDs(p *core.Prog, r *core.Report) {
 	if f := mustFunc(p, r, "", "Connection", "handleCallReq"); f != nil {
 		ok := true
 		n := 0
-		for _, c := range core.CallsIn(f, "Connection.SendSystemError") {
+		for _, c := range p.CallsDeep(f, 1, "Connection.SendSystemError") {
 			n++
-			if core.LoadedField(core.CallArgs(c)[1]) != idF {
+			// (sent directly, or by a helper that is handed the id)
+			if core.LoadedField(throughParam(core.CallArgs(c)[1], f)) != idF {
 				ok = false
 			}
 		}
@@ -637,4 +654,38 @@ func errorFrameBeforeCompletion(p *core.Prog, r *core.Report, rule string) {
 			r.Errorf("SendSystemError census found %d sites (expected at least 5)", n)
 		}
 	}
+}
+
+// c10OneHandler: a call is handed to exactly one handler. In the dispatchers
+// that choose between handlers (the skip-list wrapper around a user handler)
+// no path leads from one Handle call to another: a call served twice gets two
+// terminal frames (a complete response, then the second handler's error).
+func c10OneHandler(p *core.Prog, r *core.Report) {
+	f := mustFunc(p, r, "", "userHandlerWithSkip", "Handle")
+	if f == nil {
+		return
+	}
+	isHandle := func(i ssa.Instruction) bool {
+		c, ok := i.(ssa.CallInstruction)
+		if !ok {
+			return false
+		}
+		if c.Common().IsInvoke() {
+			return c.Common().Method.Name() == "Handle"
+		}
+		g := c.Common().StaticCallee()
+		return g != nil && g.Name() == "Handle"
+	}
+	n := 0
+	core.EachInstr(f, func(i ssa.Instruction) {
+		if !isHandle(i) {
+			return
+		}
+		n++
+		res := core.ReachAvoiding(f, i, isHandle, nil, nil)
+		r.Check(!res.Found, "C10-R1", fname(f), fmt.Sprintf("no second handler after Handle #%d", n), p.Pos(i.Pos()),
+			"no path leads from this Handle call to another one", "after this handler the call is handed to a second handler as well: its id gets a complete response and then the other handler's answer: "+p.TrailString(res))
+	})
+	miss := core.ReachAvoiding(f, nil, core.IsReturn, isHandle, nil)
+	r.Check(n >= 2 && !miss.Found, "C10-R1", fname(f), "every call reaches a handler", p.Pos(f.Pos()), "every path passes a Handle call", "a path returns without handing the call to any handler")
 }
